@@ -1,7 +1,7 @@
 #!/usr/bin/env python3
 """Final evaluation of the kept seeded mutants in /verif/seeded/<ID>-<n>/ against the current /repo and checks.
 
-  tools/seeded_final.py [--only C01-1,C02-2] [--suite] [--extra C02-1=C04,...]
+  tools/seeded_final.py [--only C01-1,C02-2] [--suite | --suite-only] [--extra C02-1=C04,...]
 
 For each mutant (in a scratch copy of /repo under /tmp, removed afterwards):
   apply patch.diff; build with and without -tags verif; (--suite) run the repository's suite up to 3 times, a
@@ -96,10 +96,12 @@ def place_demo(ddir, repo, cmds):
 def main():
     args = sys.argv[1:]
     only, suite = None, False
+    suite_only = False
     i = 0
     while i < len(args):
         if args[i] == "--only": only = set(args[i+1].split(",")); i += 1
         elif args[i] == "--suite": suite = True
+        elif args[i] == "--suite-only": suite = suite_only = True
         i += 1
     for d in sorted(glob.glob(os.path.join(ROOT, "C*-*"))):
         name = os.path.basename(d)
@@ -140,6 +142,11 @@ def main():
                 meta["existing_suite"] = {"runs": k + 1, "packages_failing_every_run": [p for p, n in fails.items() if n == 3],
                                           "packages_failing_some_run": [p for p, n in fails.items() if n < 3]}
                 ran.append("go test -vet=off -count=1 ./... (up to 3 runs; load-sensitive tests flake on the unmodified tree too)")
+                if suite_only:
+                    meta.setdefault("what_was_run", []).append(ran[-1])
+                    json.dump(meta, open(metap, "w"), indent=1)
+                    print(name, "suite", meta["existing_suite"], flush=True)
+                    continue
             cmds = demo_cmds(os.path.join(d, "demo"))
             meta["demo_command"] = cmds
             if cmds:
